@@ -58,7 +58,10 @@ def make_case(tier, seed, index):
     pf = {"p_function": 0.4}
     if tier == "thorough":
         pf["steps"] = (3, 60)
-    return {"kind": "generated", "spec": gen.gen_spec(rng, pf)}
+    pf["p_targetable"] = 0.5
+    spec = gen.gen_spec(rng, pf)
+    rng2 = gen.rng_for(seed, 3, 500000 + index)
+    return {"kind": "generated", "spec": spec, "progspec": gen.gen_progspec(rng2, spec) if rng2.random() < 0.35 else None}
 
 
 def _c(rng, seq):
@@ -143,7 +146,7 @@ def run_case(case):
     else:
         spec = case["spec"]
         try:
-            P, result, view = simcase.simulate(spec, R)
+            P, result, view = simcase.simulate_case(case, R)
         except simcase.Excluded as e:
             return {"records": R.records(), "stats": R.stats, "nontrivial": False, "excluded": e.reason}
         sample = simprop.sample_of(spec)
